@@ -204,7 +204,8 @@ def gen_rand(ctx):
             ctx.count("rand-consumer-get_until")
         if stall:
             ctx.count("rand-consumer-stall")
-    if ctx.tier == "thorough":
+    if ctx.tier == "thorough" or ctx.degraded or ctx.broken:
+        # (also in the quick tier when a translator could not read the source or a proof broke: search harder for a failing schedule)
         # one key-up longer than 2^15 frames (frame-number wrap; about 22 minutes of audio, fed as fast as the modulator takes it)
         out.append({"src": rand_call(r), "dst": rand_call(r, True), "delay": 0, "seed": r.below(1 << 31), "keyups": 1,
                     "maxsamples": 32772 * 320, "minsamples": 32772 * 320, "pace": 0, "extra_on": 0, "stall": 0})
